@@ -88,6 +88,10 @@ fn dir_fingerprint(p: &std::path::Path) -> BTreeMap<String, (u64, u64)> {
 fn main() {
     sys::maybe_child();
     let a = parse_args();
+    if a.stream == "compactkill" {
+        compactkill_stream(&a);
+        return;
+    }
     let (crashes, immut) = match a.stream.as_str() {
         "compact" => (false, false),
         "compactcrash" => (true, false),
@@ -211,4 +215,124 @@ fn main() {
         }
     }
     st.finish();
+}
+
+/// `compactkill` stream (oracle only): kill the process at a hook point inside a compaction
+/// round, restart, and require the previous answers (C05 "if the process dies part-way through,
+/// the previous answers still hold after restart"); then run another round and require the same,
+/// with the C11 directory monitor on.
+pub fn compactkill_stream(a: &snel_harness::out::Args) {
+    use serde_json::json;
+    use snel_harness::sys::Session;
+    const POINTS: [&str; 7] = [
+        "compact.output_written",
+        "handover.before_index_save",
+        "handover.index_saved",
+        "handover.lock_released",
+        "handover.live_updated",
+        "compact.before_reclaim",
+        "reclaim.moved",
+    ];
+    let mut st = Stream::create(&a.out, "compactkill");
+    for i in 0..a.cases {
+        if a.only.is_some_and(|o| o != i) {
+            continue;
+        }
+        let mut r = Rng::for_case(a.seed, "compactkill", i);
+        let cfg = SysCfg {
+            event_per_zone: 1 + r.below(2) as usize,
+            fill_factor: 1 + r.below(2) as usize,
+            segments_per_merge: 2 + r.below(2) as usize,
+            ..Default::default()
+        };
+        let cap = cfg.capacity() as u64;
+        let point = POINTS[(i % POINTS.len() as u64) as usize];
+        let root = a.out.join(format!("compactkill-{i}"));
+        let _ = std::fs::remove_dir_all(&root);
+        let mut s = Session::start(&root, &cfg);
+        assert!(s.cmd("DEFINE ev0 FIELDS { k: \"int\" }").map(|x| x.ok()).unwrap_or(false));
+        let nseg = cfg.segments_per_merge as u64 + r.below(3);
+        let mut k = 0u64;
+        for _ in 0..nseg {
+            for _ in 0..cap {
+                k += 1;
+                assert!(s.cmd(&format!("STORE ev0 FOR c{} PAYLOAD {{\"k\":{k}}}", r.below(2))).map(|x| x.ok()).unwrap_or(false));
+            }
+            s.ctl(json!({"ctl": "await_flush"}));
+        }
+        let read = |s: &mut Session| -> (Vec<i64>, i64) {
+            let q = s.cmd("QUERY ev0 RETURN [k]").expect("query");
+            let mut keys: Vec<i64> = q.col("k").iter().filter_map(|v| v.as_i64()).collect();
+            keys.sort();
+            let c = s.cmd("QUERY ev0 COUNT").expect("count");
+            let n = c.rows.first().and_then(|r| r.first()).and_then(|v| v.as_i64()).unwrap_or(0);
+            (keys, n)
+        };
+        let before = read(&mut s);
+        let dirs_before: BTreeMap<String, BTreeMap<String, (u64, u64)>> = list_dirs(&s.shard_data_dir(0));
+        let desc = format!("compactkill cap={cap} k={} segs={nseg} kill@{point}", cfg.segments_per_merge);
+        s.arm_crash(point, 1);
+        let _ = s.compact(0);
+        let died = s.wait_dead(3000);
+        if !died {
+            // the point was not reached (e.g. nothing drained, so no reclaim): plain restart
+            s.kill();
+        }
+        let mut s = Session::start(&root, &cfg);
+        let after = read(&mut s);
+        let mut fail: Option<(String, String)> = None;
+        if after != before {
+            let class = if after.0 == before.0 && after.1 > before.1 { "compaction-crash-output-and-inputs-both-live" } else { "-" };
+            fail = Some((class.into(), format!("answers changed by a kill at {point}: before {before:?} after restart {after:?}")));
+        }
+        // a directory that existed before the round and still exists must be unchanged
+        let dirs_after = list_dirs(&s.shard_data_dir(0));
+        for (name, fp) in &dirs_before {
+            if let Some(fp2) = dirs_after.get(name) {
+                if fp2 != fp && fail.is_none() {
+                    fail = Some(("-".into(), format!("directory {name} changed across the killed round")));
+                }
+            }
+        }
+        // next round on the recovered state
+        let dirs_mid = dirs_after;
+        let _ = s.compact(0);
+        std::thread::sleep(std::time::Duration::from_millis(150));
+        let after2 = read(&mut s);
+        if fail.is_none() && after2 != after {
+            let class = if after2.0 == after.0 { "compaction-crash-output-and-inputs-both-live" } else { "-" };
+            fail = Some((class.into(), format!("answers changed by the round after the recovery: {after:?} -> {after2:?}")));
+        }
+        let dirs_end = list_dirs(&s.shard_data_dir(0));
+        for (name, fp) in &dirs_mid {
+            if let Some(fp2) = dirs_end.get(name) {
+                if fp2 != fp && fail.is_none() {
+                    fail = Some(("compaction-reuses-unpublished-output-id".into(), format!("directory {name} was rewritten by the round after a kill at {point}")));
+                }
+            }
+        }
+        drop(s);
+        let _ = std::fs::remove_dir_all(&root);
+        st.tally(point);
+        if died { st.tally("died_at_point"); }
+        st.case(&desc, "-", died);
+        match fail {
+            None => st.oracle_ok(),
+            Some((c, d)) => st.oracle_fail(i, &c, &format!("{d}; {desc}")),
+        }
+    }
+    st.finish();
+}
+
+fn list_dirs(shard: &std::path::Path) -> BTreeMap<String, BTreeMap<String, (u64, u64)>> {
+    let mut m = BTreeMap::new();
+    if let Ok(rd) = std::fs::read_dir(shard) {
+        for e in rd.flatten() {
+            let name = e.file_name().to_string_lossy().to_string();
+            if !name.is_empty() && name.chars().all(|c| c.is_ascii_digit()) && e.path().is_dir() {
+                m.insert(name, dir_fingerprint(&e.path()));
+            }
+        }
+    }
+    m
 }
